@@ -435,7 +435,8 @@ func analyze(sc *scenario, sn snapshot, reorgFeature bool) *analysis {
 		}
 		if f < lastFrame { // the last tick is the sentinel gate: its slot is never processed
 			slot := sn.ticks[f].Slot
-			if rf, ok := resolvedAt[sc.epochOf(slot)]; ok && rf < f && frameOf[slot] == f {
+			// demanded: ticked after the resolving run AND a slot that begins after it (a later slot number)
+			if rf, ok := resolvedAt[sc.epochOf(slot)]; ok && rf < f && frameOf[slot] == f && slot > sn.ticks[rf].Slot {
 				for _, t := range judgedTypes {
 					_, expected := sc.modelDefs(t, slot)
 					if len(expected) == 0 {
